@@ -27,7 +27,7 @@ Print Assumptions C47_container_never_fails_before_the_application.
 (* ---- the CGI variables are determined by the request ---- *)
 
 (* method, query string, remote address, protocol, scheme and body are the request's; PATH_INFO
-   is the percent-decoding of the (UTF-8 encoded) path; SERVER_NAME / SERVER_PORT are the host
+   is the percent-decoding of the path bytes; SERVER_NAME / SERVER_PORT are the host
    split, the port printed in decimal. *)
 Theorem C47_fixed_variables :
   forall r a e, environ r a = EnvOk e ->
@@ -67,11 +67,20 @@ Theorem C47_host_split_agrees_with_left_to_right_reading :
 Proof. exact split_host_agrees_with_spec. Qed.
 Print Assumptions C47_host_split_agrees_with_left_to_right_reading.
 
-(* PATH_INFO of an ASCII path is its percent-decoding ... *)
-Theorem C47_path_info_ascii :
-  forall p, Forall (fun c => c < 128) p -> path_info p = Some (unquote_bytes p).
-Proof. exact path_info_ascii. Qed.
-Print Assumptions C47_path_info_ascii.
+(* PATH_INFO is the percent-decoding of exactly the path's bytes, for every path the wire can
+   deliver (code points < 256), hence for every accepted request (fix 9dbe448) ... *)
+Theorem C47_path_info_is_percent_decoded :
+  forall p, Forall (fun c => c < 256) p -> path_info p = Some (unquote_bytes p).
+Proof. exact path_info_bytes. Qed.
+Print Assumptions C47_path_info_is_percent_decoded.
+
+Theorem C47_path_info_of_accepted_request :
+  forall r a e, accept r = Some a -> environ r a = EnvOk e -> e_path e = unquote_bytes (q_path a).
+Proof.
+  intros r a e Ha He. destruct (environ_fixed r a e He) as [_ [_ [_ [_ [_ [_ [E _]]]]]]].
+  rewrite (path_info_bytes _ (accept_path_bytes r a Ha)) in E. inversion E. reflexivity.
+Qed.
+Print Assumptions C47_path_info_of_accepted_request.
 
 (* ... hence any byte string, percent-encoded by the client with any ASCII safe set that keeps
    '%' encoded, arrives in PATH_INFO intact. *)
@@ -82,13 +91,11 @@ Theorem C47_path_info_roundtrip :
 Proof. exact path_info_roundtrip. Qed.
 Print Assumptions C47_path_info_roundtrip.
 
-(* FULL STATEMENT (refuted): for every accepted request PATH_INFO = unquote_bytes (q_path a).
-   A raw non-ASCII byte in the path is re-encoded: "/\xe9" gives "/\xc3\xa9". *)
-Theorem C47_raw_non_ascii_path_refuted :
-  exists a e, accept raw_path_request = Some a /\ environ raw_path_request a = EnvOk e /\
-              unquote_bytes (q_path a) = [47; 233] /\ e_path e = [47; 195; 169].
-Proof. exact raw_non_ascii_path_refuted. Qed.
-Print Assumptions C47_raw_non_ascii_path_refuted.
+(* the former defect: a raw non-ASCII byte in the path now arrives unchanged *)
+Theorem C47_raw_non_ascii_path_example :
+  exists a e, accept raw_path_request = Some a /\ environ raw_path_request a = EnvOk e /\ e_path e = [47; 233].
+Proof. exact raw_non_ascii_path_example. Qed.
+Print Assumptions C47_raw_non_ascii_path_example.
 
 (* Every header line of the request is carried by its CGI variable (CONTENT_TYPE, CONTENT_LENGTH,
    HTTP_<NAME>): the variable exists, and unless a differently named header maps to the same
@@ -105,27 +112,26 @@ Print Assumptions C47_headers_become_cgi_variables.
 
 (* The model's environ satisfies the environ part of the checker applied to the implementation. *)
 Theorem C47_model_environ_passes_checker :
-  forall r a e, accept r = Some a -> environ r a = EnvOk e -> Forall (fun c => c < 128) (q_path a) ->
-  check_env r a e = true.
+  forall r a e, accept r = Some a -> environ r a = EnvOk e -> check_env r a e = true.
 Proof. exact check_env_model. Qed.
 Print Assumptions C47_model_environ_passes_checker.
 
 (* ---- the response ---- *)
 
 (* Whatever reaches the transport is the application's: the status line is "HTTP/1.1 " + status,
-   the body is the concatenation of the write() calls and the returned chunks, and for every
-   header name other than Connection the sequence of values on the wire is the sequence the
-   application gave (case-insensitively, in order) followed by the default, if one was added.
-   This theorem is "if a response is written then it is the faithful one"; C47_response_is_written
-   below shows that one IS written for every well-formed application output, HEAD-with-body apart. *)
+   the body is the concatenation of the write() calls and the returned chunks (none for a HEAD
+   request, fix a2172c8), and for every header name other than Connection the sequence of values on
+   the wire is the sequence the application gave (case-insensitively, in order) followed by the
+   default, if one was added; the default Content-Length is the length of the application's body
+   also for HEAD.  C47_response_is_written below shows that a response IS written. *)
 Theorem C47_response_unchanged :
   forall version r a o s wh b status hs,
   a_start o = Some (status, hs) -> status_ok status = true ->
   handle_request version r a o = Wire s wh b ->
-  s = t "HTTP/1.1 " ++ status /\ b = app_body o /\
+  s = t "HTTP/1.1 " ++ status /\ b = sent_body r o /\
   (forall n, hname_eq n (t "connection") = false ->
              values_of n wh = values_of n (with_defaults version (status_code status) hs (app_body o))) /\
-  (text_eqb (r_method r) (t "HEAD") = true \/ no_body_code (status_code status) = true -> app_body o = []).
+  (no_body_code (status_code status) = true -> sent_body r o = []).
 Proof. exact handle_request_status_line. Qed.
 Print Assumptions C47_response_unchanged.
 
@@ -135,10 +141,10 @@ Theorem C47_response_faithful_any_status :
   exists status hs cs reason code,
     a_start o = Some (status, hs) /\ partition1 32 status = (cs, true, reason) /\ py_int cs = IntOk code /\
     utf8_encode (t "HTTP/1.1 " ++ dec_N code ++ [32] ++ reason) = Some s /\
-    b = app_body o /\
+    b = sent_body r o /\
     (forall n, hname_eq n (t "connection") = false ->
                values_of n wh = values_of n (with_defaults version code hs (app_body o))) /\
-    (text_eqb (r_method r) (t "HEAD") = true \/ no_body_code code = true -> app_body o = []).
+    (no_body_code code = true -> sent_body r o = []).
 Proof. exact handle_request_faithful. Qed.
 Print Assumptions C47_response_faithful_any_status.
 
@@ -161,40 +167,35 @@ Theorem C47_response_never_chunked :
 Proof. exact handle_request_never_chunked. Qed.
 Print Assumptions C47_response_never_chunked.
 
-(* FULL STATEMENT (refuted): for every accepted request and well-formed application output the
-   status and headers reach the client.  A HEAD request to an application that returns its body
-   anyway gets no response at all (HTTPOutputError, connection closed). *)
-Theorem C47_head_response_dropped_refuted :
+(* the former defect: a HEAD request to an application that returns its body anyway gets the status
+   line and the headers (Content-Length: 2), and no body *)
+Theorem C47_head_response_example :
   exists a, accept head_request = Some a /\ app_ok true hello_app = true /\
-            handle_request (t "6.6") head_request a hello_app = WRaise.
-Proof. exact head_response_dropped_refuted. Qed.
-Print Assumptions C47_head_response_dropped_refuted.
+            handle_request (t "6.6") head_request a hello_app =
+            Wire (t "HTTP/1.1 200 OK")
+                 [(t "Content-Length", t "2"); (t "Content-Type", default_ctype); (t "Server", t "TornadoServer/6.6")] [].
+Proof. exact head_response_example. Qed.
+Print Assumptions C47_head_response_example.
 
 (* For every accepted request and every application output that PEP 3333 / HTTP allow (Run.app_ok:
    "DDD reason" status with printable ASCII reason, token header names, valid field values, no
    hop-by-hop headers, a correct Content-Length if any, no body with 1xx/204/304), the response is
-   written, with exactly the application's body -- provided the request is not a HEAD request whose
-   application returned a body (the refuted case above).  [version_ok]: tornado.version consists of
-   visible characters.  Together with C47_response_unchanged this is the pass-through property. *)
+   written, with exactly the application's body (no body for HEAD).  [version_ok]: tornado.version
+   consists of visible characters.  Together with C47_response_unchanged this is the pass-through
+   property at full strength. *)
 Theorem C47_response_is_written :
   forall version r a o,
   version_ok version = true -> app_ok (text_eqb (r_method r) (t "HEAD")) o = true ->
-  (text_eqb (r_method r) (t "HEAD") = true -> app_body o = []) ->
-  exists s wh, handle_request version r a o = Wire s wh (app_body o).
+  exists s wh, handle_request version r a o = Wire s wh (sent_body r o).
 Proof. exact handle_request_writes. Qed.
 Print Assumptions C47_response_is_written.
 
 (* The model satisfies the very checker that is applied to the implementation's observable on every
-   correspondence case, on every input outside the two refuted classes (non-ASCII raw path byte;
-   HEAD with a body). *)
-Theorem C47_model_satisfies_checker_except_refuted_classes :
-  forall c,
-  version_ok (ver_of c) = true ->
-  (forall a, accept (req_of c) = Some a -> Forall (fun ch => ch < 128) (q_path a)) ->
-  (text_eqb (r_method (req_of c)) (t "HEAD") = true -> app_ok true (app_of c) = true -> app_body (app_of c) = []) ->
-  check_case c (run_case c) = true.
+   correspondence case, for every input. *)
+Theorem C47_model_satisfies_checker :
+  forall c, version_ok (ver_of c) = true -> check_case c (run_case c) = true.
 Proof. exact check_case_model. Qed.
-Print Assumptions C47_model_satisfies_checker_except_refuted_classes.
+Print Assumptions C47_model_satisfies_checker.
 
 Example C47_hypotheses_are_satisfiable :
   version_ok (t "6.6.dev1") = true /\
